@@ -410,7 +410,7 @@ func (s *Session) Run() (err error) {
 
 		switch s.currentState() {
 		case WaitingLogon:
-			s.LogonSettings = &LogonSettings{
+			logonSettings := &LogonSettings{
 				HeartBtInt:      incomingLogon.HeartBtInt(),
 				EncryptMethod:   incomingLogon.EncryptMethod(),
 				Password:        incomingLogon.Password(),
@@ -424,8 +424,13 @@ func (s *Session) Run() (err error) {
 			}
 
 			if s.side == sideAcceptor {
-				s.LogonSettings.TargetCompID, s.LogonSettings.SenderCompID = s.LogonSettings.SenderCompID, s.LogonSettings.TargetCompID
+				logonSettings.TargetCompID, logonSettings.SenderCompID = logonSettings.SenderCompID, logonSettings.TargetCompID
 			}
+
+			// send() reads the settings under s.mu in other goroutines.
+			s.mu.Lock()
+			s.LogonSettings = logonSettings
+			s.mu.Unlock()
 
 			if ok, tag, reasonCode := s.checkLogonParams(incomingLogon); !ok {
 				s.sendWithErrorCheck(s.MakeReject(reasonCode, tag, incomingLogon.HeaderBuilder().MsgSeqNum()))
